@@ -10,6 +10,7 @@ import glob
 import json
 import os
 import re
+import shutil
 import subprocess
 import sys
 import time
@@ -34,21 +35,27 @@ def main():
                            cwd=VERIF, capture_output=True, text=True)
         caught = []
         incon = []
+        sigs = {}
         for l in r.stdout.splitlines():
-            m = re.match(r"(C\d+) (CAUGHT|silent|inconclusive)", l)
+            if l.startswith("scratch: /tmp/seedtest-"):
+                shutil.rmtree(l.split(": ", 1)[1].strip(), ignore_errors=True)
+            m = re.match(r"(C\d+) (CAUGHT|silent|inconclusive)\s*(.*)", l)
             if m and m.group(2) == "CAUGHT":
                 caught.append(m.group(1))
+                sigs[m.group(1)] = m.group(3).split(" | ")[0].strip()
             if m and m.group(2) == "inconclusive":
                 incon.append(m.group(1))
         own = meta["property"] in caught
-        out[name] = {"property": meta["property"], "caught_by": caught, "inconclusive": incon, "own_check_caught": own}
+        out[name] = {"property": meta["property"], "caught_by": caught, "inconclusive": incon, "own_check_caught": own,
+                     "own_check_signatures": sigs.get(meta["property"], "")}
         print("%s own=%s caught_by=%s %s" % (name, own, " ".join(caught), ("inconclusive=" + " ".join(incon)) if incon else ""), flush=True)
     head = subprocess.run(["git", "-C", VERIF, "rev-parse", "--short", "HEAD"], capture_output=True, text=True).stdout.strip()
-    res = {"verif_commit": head, "tier": "quick", "checks_run": "all 18" if run_all else "the aimed property's check",
+    seed = os.environ.get("VERIF_SEED", "")
+    res = {"verif_commit": head, "tier": "quick", "seed": seed or "default", "checks_run": "all 18" if run_all else "the aimed property's check",
            "wall_s": round(time.time() - t0), "changes": out,
            "all_caught_by_own_check": all(v["own_check_caught"] for v in out.values())}
     if not only:
-        with open(os.path.join(VERIF, "seeded", "SWEEP.json"), "w") as fh:
+        with open(os.path.join(VERIF, "seeded", "SWEEP.seed%s.json" % seed if seed else "SWEEP.json"), "w") as fh:
             json.dump(res, fh, indent=1)
     print("all caught by own check: %s (%d changes, %ds)" % (res["all_caught_by_own_check"], len(out), res["wall_s"]))
     return 0
